@@ -9,16 +9,24 @@ def unit(pkg, test, quick, thorough, replay=None, **kw):
 
 
 PLAN = {
-    "C01": {"level": "exploration", "units": [unit("cyc", "TestC01", 3000, 40000, replay="TestReplayC01")]},
+    "C01": {"level": "exploration", "units": [
+        unit("cyc", "TestC01", 3000, 40000, replay="TestReplayC01"),
+        unit("cyc", "TestC01Hist", 1200, 15000, seed_off=200)]},
     "C02": {"level": "exploration", "units": [unit("disc", "TestC02", 700, 12000, replay="TestReplayC02", shrinktime="30s")]},
     "C03": {"level": "exploration", "units": [unit("loop", "TestC03", 500, 8000, replay="TestReplayC03", shrinktime="30s")]},
-    "C04": {"level": "exploration", "units": [unit("cyc", "TestC04", 3000, 40000, replay="TestReplayC04")]},
+    "C04": {"level": "exploration", "units": [
+        unit("cyc", "TestC04", 3000, 40000, replay="TestReplayC04"),
+        unit("cyc", "TestC04Hist", 1200, 15000, seed_off=200)]},
     "C05": {"level": "exploration", "units": [
         unit("cyc", "TestC05", 3000, 40000, replay="TestReplayC05"),
         unit("loop", "TestC05Loop", 300, 5000, replay="TestReplayC05Loop", shrinktime="30s", seed_off=500)]},
     "C06": {"level": "fault_enumeration", "units": [unit("loop", "TestC06", 500, 8000, replay="TestReplayC06", shrinktime="30s")]},
-    "C07": {"level": "exploration", "units": [unit("cyc", "TestC07", 3000, 40000, replay="TestReplayC07")]},
-    "C08": {"level": "exploration", "units": [unit("cyc", "TestC08", 3000, 40000, replay="TestReplayC08")]},
+    "C07": {"level": "exploration", "units": [
+        unit("cyc", "TestC07", 3000, 40000, replay="TestReplayC07"),
+        unit("cyc", "TestC07Hist", 1200, 15000, seed_off=200)]},
+    "C08": {"level": "exploration", "units": [
+        unit("cyc", "TestC08", 3000, 40000, replay="TestReplayC08"),
+        unit("cyc", "TestC08Hist", 1200, 15000, seed_off=200)]},
     "C09": {"level": "fault_enumeration", "units": [
         unit("side", "TestC09RoundTrip", 300, 4000, replay="TestReplayC09"),
         unit("side", "TestC09Torn", 12, 150, shrinktime="30s", seed_off=300),
@@ -43,7 +51,8 @@ PLAN = {
     "C17": {"level": "exploration", "units": [unit("disc", "TestC17", 400, 8000, replay="TestReplayC17", race=True, shrinktime="30s")]},
     "C18": {"level": "exploration", "units": [
         unit("k8s", "TestC18Grid", 1, 1, replay="TestReplayC18", rapid=False, workers={"quick": 1, "thorough": 1}),
-        unit("k8s", "TestC18List", 500, 5000, seed_off=300)]},
+        unit("k8s", "TestC18List", 500, 5000, seed_off=300),
+        unit("k8s", "TestC18Seq", 500, 5000, seed_off=600)]},
     "C19": {"level": "exploration", "units": [unit("cyc", "TestC19", 1500, 15000, replay="TestReplayC19")]},
     "C20": {"level": "exploration", "units": [unit("expl", "TestC20", 40, 600, replay="TestReplayC20", shrinktime="30s")]},
 }
